@@ -19,6 +19,7 @@ THEOREMS = [
     'Dp.find_addRoute', 'Dp.history_find', 'Dp.latest_registration_wins', 'Dp.accepted_call_rebinds', 'Dp.rejected_call_is_noop',
     'Dp.accepted_iff', 'Dp.reregistered_route_exact', 'Dp.unregistered_template',
     'Dp.effSuffix_empty', 'Dp.effSuffix_none', 'Dp.effSuffix_nonempty',
+    'Dp.answer_status_exact', 'Dp.answer_status_independent', 'Dp.answer_allow_exact', 'Dp.options_answer_exact', 'Dp.not_allowed_answer_exact',
 ]
 STATEMENTS = {
     'Dp.route_masks': 'whenever the router returns a route for the path, _get_responder answers from that route\'s method map alone, whatever sinks and static routes are registered and whatever they match',
@@ -49,6 +50,11 @@ STATEMENTS = {
     'Dp.unregistered_template': 'a template no accepted call named has no node',
     'Dp.effSuffix_empty': "suffix='' selects the unsuffixed responders, like None",
     'Dp.effSuffix_nonempty': 'every non-empty suffix is used verbatim (letter case, digits, underscores are significant)',
+    'Dp.answer_status_exact': 'the status of the final response is 200 after the automatic OPTIONS responder, 405 / 400 / 404 after the other answers of the framework - for EVERY state of the response object before (a status preset by process_request / process_resource middleware or by the response_type initializer); a resource responder / sink leaves what was there',
+    'Dp.answer_status_independent': 'the status of an answer of the framework does not depend on the status the response carried before',
+    'Dp.answer_allow_exact': 'the Allow header after the automatic OPTIONS responder / the 405 is the list of that responder, whatever Allow value an earlier stage had set; 400 and 404 leave the header alone',
+    'Dp.options_answer_exact': 'on a matched route without on_options: OPTIONS is answered 200 with Allow = exactly the implemented HTTP methods, for every state of the response before',
+    'Dp.not_allowed_answer_exact': 'a method of COMBINED_METHODS the resource lacks is answered 405 with Allow = the implemented methods plus OPTIONS, for every state of the response before',
     'Dp.sink_static_order_init': 'sink_static_order for the app the constructor returns (falcon.App / falcon.API / falcon.asgi.App), whether the option was given or left out',
 }
 TRUSTED = [
@@ -58,14 +64,19 @@ TRUSTED = [
     'getattr/callable on the resource object enter the model as the list of callable on_* attributes at each add_route call',
     'sortedness of the Allow lists is carried by the correspondence (lists are compared in order), not by a theorem',
     'what a static route serves once chosen (C16)',
+    'which earlier stages run before the responder (response_type initializer, process_request unless the method is the meta method, process_resource after a route match) is the harness\'s reading of the pipeline (C03\'s subject): it computes the state `pre` of the response that is put to Dp.answer; _compose_error_response (status := error.status, set_headers(error.headers)) is folded into Dp.answer',
 ]
 ASSUMPTIONS = [
     'FALCON_CUSTOM_HTTP_METHODS is unset (COMBINED_METHODS = 9 HTTP + 13 WebDAV + WEBSOCKET; the real tuple is passed to the model on every line)',
-    'suffix is None, the empty string (read as "no suffix": the keyword is optional and an empty name selects no other responder family) or a non-empty identifier tail (letters of either case, digits, underscores; compared verbatim, as Python attribute names are); a resource object changes its responders only immediately before every template bound to it is registered again (whether a route follows later changes of its resource object is not something the statement decides); the router is a CompiledRouter (the default one or an instance passed as router=); middleware, if any, is passive (its hooks change nothing); default error handlers and serializer',
+    'suffix is None, the empty string (read as "no suffix": the keyword is optional and an empty name selects no other responder family) or a non-empty identifier tail (letters of either case, digits, underscores; compared verbatim, as Python attribute names are); a resource object changes its responders only immediately before every template bound to it is registered again (whether a route follows later changes of its resource object is not something the statement decides); the router is a CompiledRouter (the default one or an instance passed as router=); middleware, if any, neither completes the response nor raises: it is passive, or it presets a status and / or an Allow header on the response (process_request / process_resource), as the initializer of a custom response_type may; the generated resource responders and sinks set no status themselves, so with such a preset only the answers of the framework itself (automatic OPTIONS, 405, 404, 400) are judged on status; default error handlers and serializer',
     'sink_before_static_route has no public attribute or setter after construction (App.__slots__ holds only the private _sink_before_static_route), so the constructor is the only public way to configure it',
     'the 405 close code of a WebSocket handshake carries no Allow list; for WebSocket requests the Allow list is observed on the responder returned by App._get_responder only',
 ]
-RULE = ('random apps constructed through every public entry point (falcon.App, the deprecated alias falcon.API, falcon.asgi.App, and a user subclass of each), every '
+RULE = ('[dimension added after seed C02_14 - WHAT EARLIER STAGES LEFT ON THE RESPONSE when a framework-default responder runs: 46 % of the apps carry a process_request and / or process_resource middleware component '
+        'that presets resp.status (501, 418, http.HTTPStatus.ACCEPTED, \'403 Forbidden\', 404, 405, 400, 204, 500, a custom status line, 503, 201 - every spelling falcon accepts) and / or an Allow header (bogus values, set_header / append_header), '
+        'or a custom response_type whose __init__ picks another initial status, or several of these; the responder returned by App._get_responder is also invoked on a response object that carries such a status / header '
+        '(always for those apps, 35 % of the requests otherwise) and the status it leaves is observed; the full-call line of the model carries the state of the response before the responder (pre=status:Allow) and the model (Dp.answer) answers with the final status and Allow value for the answers of the framework; statement: the automatic OPTIONS responder answers 200, 405 / 404 / 400 are exactly that, Allow exact, on both stacks, whatever was there before] '
+        'random apps constructed through every public entry point (falcon.App, the deprecated alias falcon.API, falcon.asgi.App, and a user subclass of each), every '
         'App.__init__ option (media_type, request_type, response_type, middleware, router, independent_middleware, cors_enable, sink_before_static_route) independently left out, '
         'passed by keyword or passed positionally (0..8 positional arguments), with the documented default or a dispatch-neutral alternative value (passive middleware, '
         'an explicit CompiledRouter() - on WSGI routes are then sometimes added on that router directly -, cors_enable=True, Request/Response subclasses); '
@@ -217,11 +228,12 @@ class Reg:
         self.ops = []          # 's<k>' / 't<k>' in registration order
 
     def sig(self):
-        return (self.sbs, self.ctor.get('entry'), self.ctor.get('sbs_arg'), self.ctor.get('call'), tuple(sorted((r, d.get('kind'), tuple(sorted(map(str, d['attrs'])))) for r, d in self.resources.items())),
+        return (self.sbs, self.ctor.get('entry'), self.ctor.get('sbs_arg'), self.ctor.get('call'), repr(self.ctor.get('presets')), tuple(sorted((r, d.get('kind'), tuple(sorted(map(str, d['attrs'])))) for r, d in self.resources.items())),
                 tuple(self.routes), tuple(self.sinks), tuple(sorted((k, v) for k, v in self.sinkflags.items() if v is not None)), tuple(self.statics), len(self.history))
 
     def describe(self):
         return {'sink_before_static_route': self.sbs, 'constructed_by': self.ctor.get('call'),
+                'earlier_stages_leave_on_the_response': [{'by': p['by'], 'status': repr(p['status']), 'Allow': p['allow']} for p in self.ctor.get('presets') or []],
                 'resources': {r: sorted(attr_name(m, s) for m, s in d['attrs']) for r, d in self.resources.items()},
                 'resource_objects': {r: d.get('kind', 'plain') for r, d in self.resources.items()},
                 'noncallable': {r: sorted(attr_name(m, s) for m, s in d['noncallable']) for r, d in self.resources.items() if d['noncallable']},
@@ -287,7 +299,7 @@ class Reg:
         return {'k': '404'}
 
 
-def judge(exp, obs, level):
+def judge(exp, obs, level, preset=None):
     """Compare one observation with the statement's expectation. obs: dict(k=..., ...) built by classify()."""
     k = exp['k']
     if obs.get('multi'):
@@ -318,9 +330,11 @@ def judge(exp, obs, level):
         if len(al) != len(set(al)) or set(al) != exp['allow']:
             return f'{level}: {k} Allow = {al}, expected exactly {sorted(exp["allow"])}'
     if 'status' in obs and obs['status'] is not None:
-        want = {'resource': 200, 'sink': 200, 'options': 200, '405': 405, '400': 400, '404': 404}.get(k)
+        # the framework's own answers are exact whatever earlier stages left on the response; a generated resource responder / sink sets no
+        # status itself, so with a preset status its answer carries that status (not judged)
+        want = {'options': 200, '405': 405, '400': 400, '404': 404}.get(k) if preset else {'resource': 200, 'sink': 200, 'options': 200, '405': 405, '400': 400, '404': 404}.get(k)
         if want is not None and obs['status'] != want:
-            return f'{level}: status {obs["status"]}, expected {want}'
+            return f'{level}: status {obs["status"]}, expected {want}' + (f' (earlier stages left {preset} on the response)' if preset else '')
     return None
 
 
@@ -338,7 +352,8 @@ def classify(log, exc_name, status, allow, allow_unobservable=False):
         return {'k': '404', 'status': status}
     if exc_name == 'HTTPBadRequest' or status == 400:
         return {'k': '400', 'status': status}
-    if exc_name is None and (status == 200 or status is None) and allow is not None:
+    if exc_name is None and allow is not None:
+        # nothing generated ran, nothing was raised, an Allow header is there: the automatic OPTIONS responder (whose status judge() checks)
         return {'k': 'options', 'allow': allow, 'status': status}
     return {'k': 'other', 'detail': f'exception {exc_name}, status {status}, allow {allow}', 'status': status}
 
@@ -468,6 +483,46 @@ def _stack(ctx, root, asgi):
             def process_response(self, req, resp, resource, req_succeeded):
                 pass
 
+    def mk_preset_mw(where, status, allow):
+        """a middleware component of an EARLIER STAGE that leaves a status and / or an Allow header on the response before any responder runs
+        (a pessimistic default "until a responder takes over", a per-resource policy ...); it neither completes the response nor raises"""
+        def touch(resp):
+            if status is not None:
+                resp.status = status
+            if allow is not None:
+                (resp.append_header if allow[0] == 'append_header' else resp.set_header)('Allow', allow[1])
+        d = {}
+        if where == 'process_request':
+            if asgi:
+                async def process_request(self, req, resp): touch(resp)
+            else:
+                def process_request(self, req, resp): touch(resp)
+            d['process_request'] = process_request
+        else:
+            if asgi:
+                async def process_resource(self, req, resp, resource, params): touch(resp)
+            else:
+                def process_resource(self, req, resp, resource, params): touch(resp)
+            d['process_resource'] = process_resource
+        return type('Presetting', (), d)()
+
+    def mk_preset_resp(status):
+        class PresetResp(RespBase):
+            """a custom response_type whose initializer picks another initial status"""
+            def __init__(self, *a, **k):
+                super().__init__(*a, **k)
+                self.status = status
+        return PresetResp
+
+    def pick_preset():
+        """(status, allow) an earlier stage leaves behind; the status in any spelling falcon accepts"""
+        import http as _http
+        st = rnd.choice([falcon.HTTP_501, 418, _http.HTTPStatus.ACCEPTED, '403 Forbidden', 404, 405, 400, 204, 500, '299 Custom', 503, falcon.HTTP_201, None])
+        al = rnd.choice([None, None, ('set_header', 'BOGUS'), ('set_header', 'GET, POST, DELETE, PATCH'), ('append_header', 'TRACE'), ('set_header', '')])
+        if st is None and al is None:
+            st = 501
+        return st, al
+
     def construct():
         """One app through a public entry point; every App.__init__ option left out, given positionally or by keyword.
         -> (app, sbs the author configured, description, explicit router or None)"""
@@ -484,6 +539,27 @@ def _stack(ctx, root, asgi):
             'cors_enable': (rnd.random() < 0.3, None),
             'sink_before_static_route': (True if sbs_arg == 'default' else sbs_arg, None),
         }
+        # (13) WHAT EARLIER STAGES LEAVE ON THE RESPONSE: a status and / or an Allow header set by process_request / process_resource middleware or by a
+        # custom response_type's initializer before any responder - a framework-default one included - runs
+        presets = []
+        forced = set()
+        pk = rnd.choice([None] * 6 + ['process_request', 'process_request', 'process_resource', 'process_resource', 'response_type', 'response_type', 'several'])
+        if pk is not None:
+            mws = []
+            for where in (['process_request', 'process_resource'] if pk == 'several' else [pk] if pk != 'response_type' else []):
+                st_, al_ = pick_preset()
+                mws.append(mk_preset_mw(where, st_, al_))
+                presets.append({'by': where + ' middleware', 'status': st_, 'allow': al_})
+            if mws:
+                if rnd.random() < 0.4:
+                    mws.insert(rnd.randint(0, len(mws)), Passive())
+                vals['middleware'] = (mws[0] if len(mws) == 1 and rnd.random() < 0.5 else mws, '[' + ', '.join('passive' if isinstance(m_, Passive) else 'presetting' for m_ in mws) + ']')
+                forced.add('middleware')
+            if pk == 'response_type' or (pk == 'several' and rnd.random() < 0.5):
+                st_ = pick_preset()[0] or 202
+                vals['response_type'] = (mk_preset_resp(st_), f'subclass(Response) whose __init__ sets status {st_!r}')
+                presets.append({'by': 'response_type.__init__', 'status': st_, 'allow': None})
+                forced.add('response_type')
         npos = rnd.choice([0, 0, 0, 0, 1, 3, 5, 7, 8, 8])
         if sbs_arg == 'default' and npos == 8:
             npos = 7
@@ -497,7 +573,7 @@ def _stack(ctx, root, asgi):
             elif name == 'sink_before_static_route':
                 if sbs_arg != 'default':
                     kwargs[name] = v
-            elif (name == 'router' and router is not None) or rnd.random() < 0.25:
+            elif (name == 'router' and router is not None) or name in forced or rnd.random() < 0.25:
                 kwargs[name] = v
         items = list(kwargs.items())
         rnd.shuffle(items)
@@ -508,12 +584,14 @@ def _stack(ctx, root, asgi):
             warnings.simplefilter('ignore')          # falcon.API is deprecated (and still public)
             app = ENTRY_CLS[entry](*args, **kwargs)
         ctor = {'entry': entry, 'sbs_arg': 'default' if sbs_arg == 'default' else str(int(sbs_arg)), 'how': how,
-                'call': f'{entry}({", ".join(shown)})'}
+                'call': f'{entry}({", ".join(shown)})', 'presets': presets}
+        for p_ in presets:
+            ctx.count(f'{stack}_app_where_{p_["by"].replace(" ", "_")}_leaves_' + '_and_'.join((['a_status'] if p_['status'] is not None else []) + (['an_Allow_header'] if p_['allow'] else [])) + '_on_the_response')
         ctx.count(f'app_{entry}_sink_before_static_route={"omitted" if sbs_arg == "default" else sbs_arg}{"" if sbs_arg == "default" else "_" + how}')
         for name in OPTS[:-1]:
             if name in kwargs or OPTS.index(name) < npos:
                 ctx.count(f'app_option_{name}_given')
-        if vals['middleware'][1] not in ('None', '[]') and ('middleware' in kwargs or npos > 3):
+        if vals['middleware'][1] not in ('None', '[]') and 'presetting' not in vals['middleware'][1] and ('middleware' in kwargs or npos > 3):
             ctx.count('app_with_passive_middleware')
         if vals['cors_enable'][0] and ('cors_enable' in kwargs or npos > 6):
             ctx.count('app_with_cors_enable')
@@ -837,8 +915,16 @@ def _stack(ctx, root, asgi):
     class DummyWS:
         """Stands in for falcon.asgi.WebSocket when a responder returned by _get_responder is invoked directly."""
 
-    def observe_direct(app, kind, method, path):
-        """(A) App._get_responder on a real request object, then invoke what it returned."""
+    def poison_resp(resp, poison):
+        if poison is not None and not isinstance(resp, DummyWS):
+            if poison[0] is not None:
+                resp.status = poison[0]
+            if poison[1] is not None:
+                (resp.append_header if poison[1][0] == 'append_header' else resp.set_header)('Allow', poison[1][1])
+
+    def observe_direct(app, kind, method, path, poison=None):
+        """(A) App._get_responder on a real request object, then invoke what it returned - on a response object that carries what
+        earlier stages left on it (`poison`: a status and / or an Allow header), if anything."""
         LOG.clear()
         exc = None
         allow = None
@@ -850,6 +936,7 @@ def _stack(ctx, root, asgi):
             req = falcon.asgi.Request(scope, receive)
             responder, params, resource, tmpl = app._get_responder(req)
             resp = DummyWS() if kind == 'ws' else falcon.asgi.Response()
+            poison_resp(resp, poison)
 
             async def call():
                 await responder(req, resp, **params)
@@ -869,6 +956,7 @@ def _stack(ctx, root, asgi):
             with alarm(30):
                 responder, params, resource, tmpl = app._get_responder(req)
                 resp = falcon.Response()
+                poison_resp(resp, poison)
                 try:
                     responder(req, resp, **params)
                 except Exception as e:  # noqa  (anything but an HTTPError is an observation the oracle rejects, not a harness error)
@@ -879,7 +967,12 @@ def _stack(ctx, root, asgi):
             allow = split_allow(exc.headers.get('Allow'))
         elif exc is None and kind != 'ws':
             allow = split_allow(resp.get_header('Allow'))
-        obs = classify(list(LOG), type(exc).__name__ if exc is not None else None, None, allow)
+        # a responder that returned without any generated responder / sink / static route having run is a framework-default one: the status it
+        # leaves on the response is part of its answer
+        status = None
+        if exc is None and not LOG and kind != 'ws':
+            status = int(falcon.code_to_http_status(resp.status)[:3])
+        obs = classify(list(LOG), type(exc).__name__ if exc is not None else None, status, allow)
         return obs, resource, tmpl, params
 
     def observe_full(app, kind, method, path):
@@ -901,7 +994,9 @@ def _stack(ctx, root, asgi):
             for hk, hv in st[0][1]:
                 hd.setdefault(hk.lower(), []).append(hv)
             allow = split_allow(', '.join(hd['allow'])) if 'allow' in hd else None
-            return classify(list(LOG), None, status, allow)
+            o = classify(list(LOG), None, status, allow)
+            o['allow_raw'] = ', '.join(hd['allow']) if 'allow' in hd else None
+            return o
         sent = []
         if kind == 'ws':
             scope = ft.create_scope_ws(path=path)
@@ -937,7 +1032,9 @@ def _stack(ctx, root, asgi):
         for hk, hv in start['headers']:
             hd.setdefault(hk.decode('latin-1').lower(), []).append(hv.decode('latin-1'))
         allow = split_allow(', '.join(hd['allow'])) if 'allow' in hd else None
-        return classify(list(LOG), None, start['status'], allow)
+        o = classify(list(LOG), None, start['status'], allow)
+        o['allow_raw'] = ', '.join(hd['allow']) if 'allow' in hd else None
+        return o
 
     try:
         for ci in range(ctx.n(5000, 60000)):
@@ -979,12 +1076,20 @@ def _stack(ctx, root, asgi):
                     truth = {r: bool(o) for r, o in objs['res'].items() if reg.resources[r]['kind'] != 'plain'}
                     case = {'stack': stack, 'app': reg.describe(), 'request': {'kind': kind, 'method': method, 'path': path},
                             'bool(resource) at request time': truth}
+                    presets = reg.ctor.get('presets') or []
+                    poison = None
+                    if presets:
+                        poison = (presets[0]['status'], presets[0]['allow'])
+                    elif rnd.random() < 0.35:
+                        poison = pick_preset()             # the responder object _get_responder returned, called on a response that is not pristine
+                    if poison is not None:
+                        case['response passed to the responder returned by App._get_responder carries'] = {'status': repr(poison[0]), 'Allow': poison[1]}
                     exp_get = reg.expect('ws' if kind == 'ws' else 'get', method, path)
                     exp_full = reg.expect(kind, method, path)
                     sess.case(case)
                     why = None
                     try:
-                        oa, resource, tmpl, params = observe_direct(app, kind, method, path)
+                        oa, resource, tmpl, params = observe_direct(app, kind, method, path, poison)
                         # what the router answered is an input of the model
                         route_info = None
                         if resource is not None:
@@ -993,14 +1098,30 @@ def _stack(ctx, root, asgi):
                         sess.op(model_line('get', reg, objs, route_info, mmeth, path), render(oa))
                         # (an HTTP request naming the meta method never reaches _get_responder in the real call; the
                         #  statement is silent about the private method there, so only the correspondence looks at it)
-                        why = None if (kind == 'http' and method in META) else judge(exp_get, oa, 'App._get_responder')
+                        why = None if (kind == 'http' and method in META) else judge(exp_get, oa, 'App._get_responder', preset=poison and {'status': poison[0], 'Allow': poison[1]})
                         if why is None and 'tmpl' in exp_get and tmpl != exp_get['tmpl']:
                             why = f'App._get_responder: uri_template {tmpl!r}, expected {exp_get["tmpl"]!r}'
                         ob = observe_full(app, kind, method, path)
                         if kind == 'http':
-                            sess.op(model_line('http', reg, objs, route_info, method, path), render(ob))
+                            # what the earlier stages of THIS request leave on the response when the responder runs: the response_type initializer,
+                            # then process_request (not reached by a meta method: the 400 is raised first), then process_resource if a route matched
+                            pst, pal = 200, None
+                            for by in ('response_type.__init__', 'process_request middleware', 'process_resource middleware'):
+                                if (by == 'process_request middleware' and method in META) or (by == 'process_resource middleware' and (route_info is None or method in META)):
+                                    continue
+                                for p_ in presets:
+                                    if p_['by'] == by:
+                                        if p_['status'] is not None:
+                                            pst = int(falcon.code_to_http_status(p_['status'])[:3])
+                                        if p_['allow'] is not None:
+                                            pal = (pal + ', ' + p_['allow'][1]) if (p_['allow'][0] == 'append_header' and pal is not None) else p_['allow'][1]
+                            pre_w = f" pre={pst}:{'-' if pal is None else 'x' + pal.encode('utf-8').hex()}"
+                            tail = ''
+                            if ob['k'] in ('options', '405', '400', '404'):
+                                tail = f" st={ob['status']} allow={'-' if ob.get('allow_raw') is None else ob['allow_raw'].encode('utf-8').hex()}"
+                            sess.op(model_line('http', reg, objs, route_info, method, path) + pre_w, render(ob) + tail)
                         if why is None:
-                            why = judge(exp_full, ob, f'full {stack} call')
+                            why = judge(exp_full, ob, f'full {stack} call', preset=[{'by': p_['by'], 'status': p_['status'], 'Allow': p_['allow']} for p_ in presets] or None)
                         okind = ob['k']
                     except Hang:
                         why = 'dispatch did not return (hang)'
@@ -1013,6 +1134,14 @@ def _stack(ctx, root, asgi):
                     ctx.seen((stack, reg.sig(), kind, method, path), bool(reg.routes or reg.sinks or reg.statics))
                     ctx.count(f'{stack}_{kind}_{okind}')
                     ctx.count(f'{stack}_expected_{exp_full["k"]}')
+                    if exp_full['k'] in ('options', '405', '404', '400') and kind == 'http':
+                        live = [p_ for p_ in (reg.ctor.get('presets') or []) if p_['by'] != 'process_resource middleware' or 'tmpl' in exp_full]
+                        if any(p_['status'] is not None for p_ in live):
+                            ctx.count(f'{stack}_framework_default_{exp_full["k"]}_answer_after_an_earlier_stage_preset_the_status')
+                        if any(p_['allow'] for p_ in live):
+                            ctx.count(f'{stack}_framework_default_{exp_full["k"]}_answer_after_an_earlier_stage_preset_an_Allow_header')
+                    if exp_get['k'] in ('options', '405', '404', '400') and case.get('response passed to the responder returned by App._get_responder carries'):
+                        ctx.count(f'{stack}_responder_from_get_responder_{exp_get["k"]}_called_on_a_response_with_preset_status_or_Allow')
                     if 'tmpl' in exp_get:
                         rid_ = reg.current_routes()[exp_get['tmpl']][0]
                         if exp_get['tmpl'] in objs['rereg']:
@@ -1074,7 +1203,7 @@ LEVEL_TEXT = ('Machine-checked proofs (Lean 4) about a model of add_route (map_h
               'sinks by recency then static routes by recency (or swapped); the Allow sets of the automatic OPTIONS and 405 responders are exact for every set of '
               'implemented methods (WEBSOCKET never leaks); suffixed routes reach only suffixed responders (suffix compared verbatim, empty = none); after any history of add_route calls a template answers from the method map of its latest accepted registration, also when the same object is registered again; kwargs are the template fields / groupdict() of the chosen sink\'s match - every named group of its prefix pattern, None for groups that did not take part, '
               'also when no group took part at all; the constructor default of sink_before_static_route is True; '
-              'WEBSOCKET over HTTP is 400. The model is tied to falcon on every run: generated WSGI and ASGI apps built through falcon.App, falcon.API, falcon.asgi.App and subclasses with every constructor option omitted / by keyword / positional, each request observed on the responder returned by '
+              'WEBSOCKET over HTTP is 400; the status and the Allow header of the answers of the framework itself (automatic OPTIONS 200, 405, 400, 404) are exact for every state an earlier stage (process_request / process_resource middleware, a custom response_type) left on the response (Dp.answer). The model is tied to falcon on every run: generated WSGI and ASGI apps built through falcon.App, falcon.API, falcon.asgi.App and subclasses with every constructor option omitted / by keyword / positional, each request observed on the responder returned by '
               '_get_responder and through the full application call, compared with the compiled model, and judged by an independent oracle written from the statement.')
 LEVEL_NOTE = ('Trusted: Lean kernel + standard axioms; re and StaticRoute.match as table inputs; the router (C01) as an input; correspondence harness and oracle. '
               'Sortedness of Allow is carried by the correspondence only.')
